@@ -3,7 +3,7 @@
     Executable model (no proofs in this file) of the six operator expanders of
     [/repo/impl/src]:
 
-      add_helpers.rs      tuple_exprs, struct_exprs
+      add_helpers.rs      tuple_exprs, struct_exprs, receiver
       add_like.rs         expand, tuple_content, struct_content, enum_content
       add_assign_like.rs  expand
       mul_helpers.rs      generics_and_exprs (expression part)
@@ -189,7 +189,7 @@ Definition field_list (fs : fields) : list field :=
 Inductive side := Lhs | Rhs.                     (* [self] / [rhs];  [__l_i] / [__r_i] *)
 Inductive reftype := RefNo | RefMut.
 Inductive callstyle :=
-| CMethod                                         (* [a.meth(b)] *)
+| CPath (r : reftype)                             (* [derive_more::core::ops::Trait::meth(& mut a, b)] *)
 | CUfcs (ty : N) (r : reftype).                   (* [<ty as Trait<__RhsT>>::meth(& mut a, b)] *)
 
 Inductive expr :=
@@ -197,7 +197,7 @@ Inductive expr :=
 | EVar (s : side) (i : nat)                       (* a variable bound by a match pattern *)
 | EScalar                                         (* [rhs] of type [__RhsT] *)
 | ECall (st : callstyle) (meth : str) (a b : expr)
-| ECall1 (meth : str) (a : expr)                  (* [a.meth()] *)
+| ECall1 (meth : str) (a : expr)                  (* [derive_more::core::ops::Trait::meth(a)] *)
 | EIdentity (meth : str) (ty : N).                (* [Trait::meth(core::iter::empty::<ty>())] *)
 
 Inductive ctor := CStruct | CVariant (v : str).   (* [S] / [E::V] *)
@@ -234,7 +234,7 @@ Inductive outkind :=
 
 Record impl := {
   im_allows : bool;            (* [#[allow(deprecated)] #[allow(unreachable_code)]] precede [#[automatically_derived]]
-                                  (add_like.rs:44-45, not_like.rs:38-39) *)
+                                  (add_like.rs:54-55, not_like.rs:48-49) *)
   im_trait : str;
   im_root : trait_root;
   im_scalar : option bool;     (* [Some copy]: extra parameter [__RhsT], with a [Copy] bound iff [copy] *)
@@ -260,28 +260,35 @@ Definition omap {A B} (f : A -> B) (o : outcome A) : outcome B :=
 
 (* ------------------------------------------------------------------ add_helpers.rs *)
 
-(** add_helpers.rs:5-15 *)
-Definition tuple_exprs (n : nat) (meth : str) : list expr :=
-  map (fun i => ECall CMethod meth (ESel Lhs (MIdx i)) (ESel Rhs (MIdx i))) (seq 0 n).
+(** add_helpers.rs:45-51: [&mut] for the [*_assign] methods, nothing for the by-value ones *)
+Definition receiver (meth : str) : reftype :=
+  match strip_prefix (rev (lit "_assign")) (rev meth) with
+  | Some _ => RefMut
+  | None => RefNo
+  end.
 
-(** add_helpers.rs:17-28 *)
+(** add_helpers.rs:5-22: [derive_more::core::ops::Trait::meth(& mut self.i, rhs.i)] *)
+Definition tuple_exprs (n : nat) (meth : str) : list expr :=
+  map (fun i => ECall (CPath (receiver meth)) meth (ESel Lhs (MIdx i)) (ESel Rhs (MIdx i))) (seq 0 n).
+
+(** add_helpers.rs:24-42 *)
 Definition struct_exprs (names : list str) (meth : str) : list expr :=
-  map (fun x => ECall CMethod meth (ESel Lhs (MName x)) (ESel Rhs (MName x))) names.
+  map (fun x => ECall (CPath (receiver meth)) meth (ESel Lhs (MName x)) (ESel Rhs (MName x))) names.
 
 (* ------------------------------------------------------------------ add_like.rs *)
 
-(** add_like.rs:60-67 *)
+(** add_like.rs:70-78 *)
 Definition add_tuple_content (c : ctor) (n : nat) (meth : str) : build :=
   BTuple c (tuple_exprs n meth).
 
-(** add_like.rs:69-79 *)
+(** add_like.rs:80-91 *)
 Definition add_struct_content (c : ctor) (names : list str) (meth : str) : build :=
   BNamed c (combine names (struct_exprs names meth)).
 
 Definition var_calls (n : nat) (meth : str) : list expr :=
-  map (fun i => ECall CMethod meth (EVar Lhs i) (EVar Rhs i)) (seq 0 n).
+  map (fun i => ECall (CPath RefNo) meth (EVar Lhs i) (EVar Rhs i)) (seq 0 n).
 
-(** add_like.rs:90-144, one arm per variant *)
+(** add_like.rs:104-158, one arm per variant *)
 Definition add_enum_arm (meth : str) (vr : variant) : pat * pat * rexpr :=
   let v := v_name vr in
   match v_fields vr with
@@ -295,13 +302,13 @@ Definition add_enum_arm (meth : str) (vr : variant) : pat * pat * rexpr :=
   | FUnit => (PUnit v, PUnit v, RErrBinUnit meth)
   end.
 
-(** add_like.rs:81-161; the wildcard arm exists only when there is more than one variant
-    (add_like.rs:146) *)
+(** add_like.rs:93-175; the wildcard arm exists only when there is more than one variant
+    (add_like.rs:160) *)
 Definition add_enum_content (vs : list variant) (meth : str) : body :=
   BodyMatch2 (map (add_enum_arm meth) vs)
              (if Nat.ltb 1 (List.length vs) then Some (RErrBinMismatch meth) else None).
 
-(** add_like.rs:11-58 *)
+(** add_like.rs:11-68 *)
 Definition add_like_expand (lower : str -> str) (inp : input) (tname : str) : outcome impl :=
   let tname := trim_end_matches (lit "Self") tname in
   let meth := lower tname in
@@ -523,11 +530,11 @@ Definition mul_assign_like_expand (lower : str -> str) (inp : input) (tname : st
 
 (* ------------------------------------------------------------------ not_like.rs *)
 
-(** not_like.rs:53-68 *)
+(** not_like.rs:63-81 *)
 Definition not_tuple_content (n : nat) (meth : str) : build :=
   BTuple CStruct (map (fun i => ECall1 meth (ESel Lhs (MIdx i))) (seq 0 n)).
 
-(** not_like.rs:70-86 *)
+(** not_like.rs:83-102 *)
 Definition not_struct_content (names : list str) (meth : str) : build :=
   BNamed CStruct (map (fun x => (x, ECall1 meth (ESel Lhs (MName x)))) names).
 
@@ -536,7 +543,7 @@ Definition is_unit (fs : fields) : bool := match fs with FUnit => true | _ => fa
 Definition var_calls1 (n : nat) (meth : str) : list expr :=
   map (fun i => ECall1 meth (EVar Lhs i)) (seq 0 n).
 
-(** not_like.rs:100-159, one arm per variant *)
+(** not_like.rs:118-177, one arm per variant *)
 Definition not_enum_arm (meth : str) (has_unit : bool) (vr : variant) : pat * rexpr :=
   let v := v_name vr in
   let wrap b := if has_unit then ROk b else RPlain b in
@@ -549,10 +556,10 @@ Definition not_enum_arm (meth : str) (has_unit : bool) (vr : variant) : pat * re
   | FUnit => (PUnit v, RErrUnit meth)
   end.
 
-(** not_like.rs:98 *)
+(** not_like.rs:116 *)
 Definition has_unit_type (vs : list variant) : bool := existsb (fun v => is_unit (v_fields v)) vs.
 
-(** not_like.rs:9-51 and 88-176 *)
+(** not_like.rs:9-61 and 104-194 *)
 Definition not_like_expand (lower : str -> str) (inp : input) (tname : str) : outcome impl :=
   let meth := lower tname in
   let mk out b := {| im_allows := true; im_trait := tname; im_root := RootCoreOps; im_scalar := None;
